@@ -64,6 +64,9 @@ type Buffer struct {
 	committed        bool
 	desc             ociregistry.Descriptor
 	commitErr        error
+	// committedBuf holds the content as it was when the commit
+	// digest was verified; later writes cannot change it.
+	committedBuf []byte
 }
 
 // NewBuffer returns a buffer that calls commit with the
@@ -112,7 +115,7 @@ func (b *Buffer) GetBlob() (ociregistry.Descriptor, []byte, error) {
 	if b.commitErr != nil {
 		return ociregistry.Descriptor{}, nil, b.commitErr
 	}
-	return b.desc, b.buf, nil
+	return b.desc, b.committedBuf, nil
 }
 
 // Write implements io.Writer by writing some data to the blob.
@@ -160,11 +163,9 @@ func (b *Buffer) Commit(dig ociregistry.Digest) (_ ociregistry.Descriptor, err e
 		b.commitErr = err
 		return ociregistry.Descriptor{}, err
 	}
-	return ociregistry.Descriptor{
-		MediaType: "application/octet-stream",
-		Size:      int64(len(b.buf)),
-		Digest:    dig,
-	}, nil
+	b.mu.Lock()
+	defer b.mu.Unlock()
+	return b.desc, nil
 }
 
 func (b *Buffer) checkCommit(dig ociregistry.Digest) (err error) {
@@ -187,5 +188,8 @@ func (b *Buffer) checkCommit(dig ociregistry.Digest) (err error) {
 		Size:      int64(len(b.buf)),
 	}
 	b.committed = true
+	// Cap the slice so that a concurrent or later append cannot write
+	// into the committed content.
+	b.committedBuf = b.buf[:len(b.buf):len(b.buf)]
 	return nil
 }
